@@ -167,6 +167,10 @@ pub struct BufferPool {
     /// The purpose of this pool is to avoid the overhead of allocating and
     /// freeing large buffers.
     min_size: usize,
+
+    /// Seeded strategy, for external verification tooling.
+    #[cfg(rten_verif)]
+    verif: Option<std::sync::Arc<crate::verif::Strategy>>,
 }
 
 impl BufferPool {
@@ -181,6 +185,8 @@ impl BufferPool {
             alloc_count: AtomicUsize::new(0),
             hit_count: AtomicUsize::new(0),
             min_size: 128,
+            #[cfg(rten_verif)]
+            verif: None,
         }
     }
 
@@ -204,6 +210,11 @@ impl BufferPool {
 
         self.alloc_count.fetch_add(1, Ordering::AcqRel);
 
+        #[cfg(rten_verif)]
+        if self.verif_forced_miss::<T>(capacity) {
+            return Vec::with_capacity(capacity);
+        }
+
         let mut buffers = self.buffers.lock().unwrap();
 
         // Find best fit item that matches the requested type and size with
@@ -223,6 +234,9 @@ impl BufferPool {
                 }
                 Some((idx, buffer.capacity))
             });
+
+        #[cfg(rten_verif)]
+        let best_fit = self.verif_refit::<T>(&buffers, capacity, best_fit);
 
         if let Some((best_fit, _overhead)) = best_fit {
             self.hit_count.fetch_add(1, Ordering::AcqRel);
@@ -244,6 +258,8 @@ impl BufferPool {
     /// to fulfill future allocation requests.
     pub fn add<B: Into<Buffer>>(&self, buf: B) {
         let buf: Buffer = buf.into();
+        #[cfg(rten_verif)]
+        self.verif_poison(&buf);
         if buf.layout.size() >= self.min_size {
             self.buffers.lock().unwrap().push(buf);
         }
@@ -270,6 +286,80 @@ impl BufferPool {
     /// Return true if the pool is empty.
     pub fn is_empty(&self) -> bool {
         self.buffers.lock().unwrap().is_empty()
+    }
+}
+
+#[cfg(rten_verif)]
+impl BufferPool {
+    /// Attach a seeded strategy to this pool.
+    pub fn verif_with_strategy(mut self, strategy: std::sync::Arc<crate::verif::Strategy>) -> Self {
+        if let Some(min_size) = strategy.pool_min_size {
+            self.min_size = min_size;
+        }
+        self.verif = Some(strategy);
+        self
+    }
+
+    /// Decide whether this allocation ignores the pool. Allocations can come
+    /// from several threads at once, so the decision is a stateless hash of
+    /// the request and the number of requests seen so far.
+    fn verif_forced_miss<T>(&self, capacity: usize) -> bool {
+        let Some(strategy) = self.verif.as_deref() else {
+            return false;
+        };
+        if strategy.pool_miss == 0 {
+            return false;
+        }
+        let n = self.alloc_count.load(Ordering::Acquire) as u64;
+        let miss = (strategy.hash(0xF0, (capacity * size_of::<T>()) as u64, n) & 0xff)
+            < strategy.pool_miss as u64;
+        if miss {
+            crate::verif::Strategy::count(&strategy.stats.pool_forced_misses);
+        }
+        miss
+    }
+
+    /// Replace the best-fit choice by any fitting buffer.
+    fn verif_refit<T>(
+        &self,
+        buffers: &[Buffer],
+        capacity: usize,
+        best_fit: Option<(usize, usize)>,
+    ) -> Option<(usize, usize)> {
+        let strategy = self.verif.as_deref()?;
+        let best = best_fit?;
+        crate::verif::Strategy::count(&strategy.stats.pool_hits);
+        if !strategy.pool_random_fit {
+            return Some(best);
+        }
+        let fitting: Vec<(usize, usize)> = buffers
+            .iter()
+            .enumerate()
+            .filter(|(_, buffer)| buffer.can_fit::<T>(capacity))
+            .map(|(idx, buffer)| (idx, buffer.capacity))
+            .collect();
+        let n = self.alloc_count.load(Ordering::Acquire) as u64;
+        let choice =
+            fitting[(strategy.hash(0xF1, capacity as u64, n) % fitting.len() as u64) as usize];
+        if choice != best {
+            crate::verif::Strategy::count(&strategy.stats.pool_refits);
+        }
+        Some(choice)
+    }
+
+    /// Overwrite a buffer entering the pool with the strategy's byte pattern.
+    /// The contents of a pooled buffer are unspecified (it is handed out as an
+    /// empty `Vec`), so no operator may depend on them.
+    fn verif_poison(&self, buf: &Buffer) {
+        let Some(strategy) = self.verif.as_deref() else {
+            return;
+        };
+        if let Some(pattern) = strategy.poison {
+            // Safety: `buf` owns an allocation of `layout.size()` bytes which
+            // nothing else references.
+            unsafe { std::ptr::write_bytes(buf.ptr, pattern, buf.layout.size()) };
+            crate::verif::Strategy::count(&strategy.stats.pool_poisoned);
+        }
     }
 }
 
